@@ -312,10 +312,12 @@ def bounded_checks(tier, seed):
     p = subprocess.run([os.environ.get('LOKI_PYTHON', '/venv/bin/python'), os.path.join(root, 'replay', 'C04.py'), '--corpus'],
                        capture_output=True, text=True, timeout=1800, env=dict(os.environ, PYTHONPATH=repo), cwd=repo)
     line = next((l for l in reversed(p.stdout.splitlines()) if l.startswith('{')), None)
-    rule = ('widths {8, 10, 13, 20} x 2 continuation styles x 2 separators x all lists of 1..3 items from 9 texts (words of '
-            '1..7 letters, call-like tokens, blank-separated word groups) x {empty, indented} first line, plus two nested '
+    rule = ('widths {8, 10, 13, 20} x 2 continuation styles x 2 separators x all lists of 1..3 items from 11 texts (words of '
+            '1..7 letters, call-like tokens, blank-separated word groups, character literals holding blanks and the other '
+            'quote) x {empty, indented} first line, plus two nested '
             'lists: every physical line of str(JoinableStringList) is at most width long unless it holds one unbreakable '
-            'piece, and removing the continuation markers gives back sep.join(items)')
+            'piece, a character literal stays intact on one line, and removing the continuation markers gives back '
+            'sep.join(items)')
     if line is None:
         return [{'name': 'native/JoinableStringList', 'cases': 0, 'violation': False, 'error': p.stderr[-600:], 'rule': rule}]
     d = json.loads(line)
